@@ -66,6 +66,13 @@ Definition date_str (n : Z) : list Z := let '(y, m, d) := civil_from_days n in p
 Definition date_of_str (s : list Z) : option Z :=
   match parse_date s with Some (y, m, d) => Some (days_from_civil y m d) | None => None end.
 
+(* Date(datetime.date / datetime.datetime): _from_timetuple: days_from_epoch = calendar.timegm(t) // 86400, where timegm is the
+   number of seconds from the epoch of the (naive) date and time of day.  Floor division: instants before 1970 with a non-zero
+   time of day still belong to their own calendar day. *)
+Definition timegm (y m d hh mm ss : Z) : Z := days_from_civil y m d * 86400 + hh * 3600 + mm * 60 + ss.
+Definition date_from_datetime (y m d hh mm ss : Z) : Z := timegm y m d hh mm ss / 86400.
+Definition valid_tod (hh mm ss : Z) : bool := (0 <=? hh) && (hh <=? 23) && (0 <=? mm) && (mm <=? 59) && (0 <=? ss) && (ss <=? 59).
+
 Definition MIN_DAY : Z := -719162.   (* 0001-01-01 *)
 Definition MAX_DAY : Z := 2932896.   (* 9999-12-31 *)
 
